@@ -14,6 +14,7 @@ RULE = ("Pairs of disjoint trees built twice from one generated spec (all eight 
         "a fresh copy must compare equal, and after an effective edit of one side the two must compare unequal. "
         "Non-trivial: unequal pairs whose difference lies outside the first-child chain; distinct (tree, difference) by hash.")
 RULE += ('  Trees that carry the same node ids (a tree and its JSON reload) are distinct trees and compare like any others.')
+RULE += ("  Difference kinds include 'prefix-alias': two prefixes bound to one URI in the node's map, the trees differing in that prefix only.")
 ASSUMPTIONS = [
     "only distinct trees are compared (is_equal answers False for the same object by design)",
     "attribute / extras / namespace dictionaries compare by content, not insertion order",
